@@ -30,6 +30,8 @@ class Session:
         shutil.copyfile(os.path.join(work, "base.tdf"), self.other)
         self.t = Tdf(self.path)
         self.t2 = Tdf(self.other)
+        with self.t2:               # the right operand of == has been opened before: == then depends on self.t alone
+            pass
         self.rng = rng
 
     def sha(self):
